@@ -147,7 +147,7 @@ var ndLineTemplates = []string{`[]`, `{}`, `[1]`, `{"a":1}`, `["x","y"]`, `{"k":
 
 func genNDInput(t *rapid.T) ([]byte, string) {
 	var b bytes.Buffer
-	kind := rapid.IntRange(0, 5).Draw(t, "ndkind")
+	kind := rapid.IntRange(0, 6).Draw(t, "ndkind")
 	crlfAll := rapid.IntRange(0, 3).Draw(t, "crlf") == 0
 	eol := func() {
 		if crlfAll || rapid.IntRange(0, 7).Draw(t, "crlf1") == 0 {
@@ -245,6 +245,38 @@ func genNDInput(t *rapid.T) ([]byte, string) {
 		}
 		b.WriteString(`["` + strings.Repeat("x", rest) + `"]`)
 		name = "len8KiB"
+	case 6: // long white-space runs (whole 64-byte blocks without any other byte) around, inside and between documents,
+		// so that line feeds fall into blocks that hold nothing but white space
+		ws := func() string {
+			n := rapid.IntRange(40, 200).Draw(t, "wslen")
+			switch rapid.IntRange(0, 2).Draw(t, "wskind") {
+			case 0:
+				return strings.Repeat(" ", n)
+			case 1:
+				return strings.Repeat("\t", n)
+			}
+			return strings.Repeat(" \t \r", n/4+1)
+		}
+		b.WriteString(strings.Repeat(" ", rapid.IntRange(0, 63).Draw(t, "shift")))
+		n := rapid.IntRange(2, 8).Draw(t, "lines")
+		for i := 0; i < n; i++ {
+			switch rapid.IntRange(0, 6).Draw(t, "lk") {
+			case 0: // white-space-only line
+				b.WriteString(ws())
+			case 1: // a document split across lines inside a white-space run (not a valid line sequence)
+				b.WriteString("[1," + ws() + "\n" + ws() + "2]")
+			case 2: // two documents on one line, far apart
+				b.WriteString("[1]" + ws() + "{}")
+			case 3:
+				b.WriteString(ws() + ndLineTemplates[rapid.IntRange(0, 9).Draw(t, "tmpl")] + ws())
+			case 4:
+				b.WriteString("[" + ws() + `"a"` + ws() + "," + ws() + "{" + ws() + "}" + ws() + "]")
+			default:
+				b.WriteString(ndLineTemplates[rapid.IntRange(0, 9).Draw(t, "tmpl")] + ws())
+			}
+			eol()
+		}
+		name = "wide-white-space"
 	default: // leading / trailing blank lines and white space around the whole input
 		b.WriteString([]string{"", "\n", "\n\n", " \n", "\r\n", "\t"}[rapid.IntRange(0, 5).Draw(t, "pre")])
 		n := rapid.IntRange(1, 4).Draw(t, "lines")
